@@ -97,6 +97,9 @@ def execute(mod, spec, ws):
             results[tag] = ws.run(variant, plan, timeout=wall * 13 + 30)
         if results[tag].crash_class() == 'TIMEOUT' and getattr(mod, 'STOP_JOB_AFTER_TIMEOUT', False):
             break      # one watchdog expiry per job is enough evidence; the rest of its placements would cost 20 s each
+        trunc = getattr(mod, 'QUICK_SLOW_JOB', None)
+        if trunc and spec.get('_quick') and len(results) >= trunc[1] and max(r.wall for r in results.values()) > trunc[0]:
+            break      # quick tier: a scenario whose single runs take this long keeps its first placements only
     s2 = dict(spec); s2['_ix'] = ix0; s2['_plans'] = pl
     V = mod.judge(s2, results)
     return results, V
@@ -111,6 +114,8 @@ def job_main(arg):
     rep = {'i': i, 'ok': True}
     try:
         spec = add_unusual(mod.gen_spec(prop, rng, tier), seed, prop, i)
+        if tier == 'quick':
+            spec['_quick'] = 1
         results, V = execute(mod, spec, _WS)
         rep['nruns'] = len(results)
         rep['keys'] = mod.nontrivial_keys(spec, results)
@@ -642,6 +647,20 @@ def cmd_omptest(n=60):
             if not ok:
                 bad += 1
                 print('OMP-SELFTEST-FAILED plan %d (%s): %s %s %s' % (i, variant, r.crash_class(), [(r.op(k).f if r.op(k) else None) for k in ix], r.viol[:2]))
+        # thread-local storage per virtual thread (plain and preempt builds; the ASan build does not model it)
+        for i in range(30):
+            rng = random.Random(gen.derive_seed(seed, 'tls', i))
+            variant = ('plain', 'preempt')[i % 2]
+            w = gen.gen_world(rng, preempt=(variant == 'preempt'))
+            w['thread_limit'] = 64; w.pop('p_shortfall', None)       # the test needs the same team size twice
+            p = plans.base_plan('tls%d' % i, w, trace=False)
+            p.stdin = ('tty', b'')
+            ix = [p.op_simple('T3', rng.choice([2, 3, 4, 8])) for _ in range(3)]
+            r = ws.run(variant, p, timeout=120)
+            runs += 1
+            if r.crashed() or any(r.op(k) is None or r.op(k).rc != 0 for k in ix):
+                bad += 1
+                print('OMP-SELFTEST-FAILED threadprivate plan %d (%s): %s %s' % (i, variant, r.crash_class(), [(r.op(k).f if r.op(k) else None) for k in ix]))
         # store-buffer model for atomics (preempt build): the Dekker litmus test must never read 0/0 under sequential
         # consistency and must do so at least once when relaxed stores may sit in a store buffer
         seen = {0: 0, 1: 0}
